@@ -25,6 +25,7 @@ def check(repo: Repo, R) -> None:
     R.run(inner_properties, repo, R)
     R.run(c01.list_slice_index_maps, repo, R, "C03.4-nested-slice-index-maps")
     R.run(sliceable_kinds, repo, R)
+    R.run(ref_width_is_referents, repo, R)
     R.run(concat_width, repo, R)
     R.run(slice_entry, repo, R)
     # "resolving nested slices and concatenations down to signal-level slices does not change the selected bit sequence":
@@ -389,6 +390,39 @@ def sliceable_kinds(repo: Repo, R):
             why="the width of a port or bundle reference is not its referent's width")
 
 
+def ref_width_is_referents(repo: Repo, R):
+    """The width of a reference is the width of the signal it refers to — that number, unscaled, is what is
+    remembered on the reference and what every return of the Signal arm hands out."""
+    rule = "C03.5-sliceable-kinds"
+    rw = repo.func(F_WIDTH, "ref_width")
+    rp = rw.node.args.args[0].arg
+    memo = f"{rp}._width"
+
+    def is_referent_width(e: ast.AST) -> bool:
+        v = shared.prov(rw.node, e)
+        if not (isinstance(v, ast.Call) and isinstance(v.func, ast.Name) and v.func.id == "width" and v.args):
+            return False
+        a0 = ast.unparse(v.args[0])
+        return a0.startswith(("resolve_portref_type(", "resolve_bundleref_type(")) or isinstance(shared.prov(rw.node, v.args[0]), ast.Name)
+
+    writes = [n for n in au.walk_no_nested(rw.node) if isinstance(n, (ast.Assign, ast.AugAssign, ast.AnnAssign)) and any(ast.unparse(t) == memo for t in (n.targets if isinstance(n, ast.Assign) else [n.target]))]
+    bad = [f"`{ast.unparse(n)}`" for n in writes if not (isinstance(n, ast.Assign) and is_referent_width(n.value))]
+    rets = [r for r in shared.returns_of(rw.node) if r.value is not None]
+    n_ok = 0
+    for r in rets:
+        for v, _c in shared.alternatives(rw.node, r.value, shared.path_conditions(rw.node, r), at=r):
+            t = ast.unparse(v)
+            if t == memo or is_referent_width(v):
+                n_ok += 1
+            elif isinstance(v, ast.Call) and ast.unparse(v.func) in (rw.node.args.args[1].arg if len(rw.node.args.args) > 1 else "failer", "fail"):
+                continue
+            else:
+                bad.append(f"returns `{t[:70]}`")
+    R.check(bool(writes) and n_ok >= 2 and not bad, rule, key_of(rw, "referent-width-unscaled"), rw.site,
+            f"ref_width remembers and returns exactly width(<referent signal>)" if not bad else f"ref_width scales or replaces the referent's width: {bad}",
+            why="a slice of an instance-array port reference counts n times the port's bits: `arr.p[-1]` names a bit beyond the signal")
+
+
 def concat_width(repo: Repo, R):
     rule = "C03.6-concat-width-is-sum"
     fw = repo.func(F_WIDTH, "width")
@@ -431,7 +465,40 @@ def slice_entry(repo: Repo, R):
     R.check(tchk and reg and mk, rule, key_of(fs), fs.site,
             f"square brackets: non-int/slice index raises: {tchk}; builds Slice(parent, index): {mk}; registers the slice with its parent (so reference resolution can re-parent it): {reg}",
             why="a slice of a port reference is not re-parented when the reference resolves, and is exported against the reference")
+    # ... with the index as it was given: what a Slice stores is judged (and normalised) once, by the inner resolution
+    ctors = [c for c, _b in pat.find("Slice(parent=$A, index=$I)", fs.node)]
+    rewrites = []
+    for c in ctors:
+        for kw in c.keywords:
+            pn = kw.arg
+            if not (isinstance(kw.value, ast.Name) and kw.value.id == pn):
+                rewrites.append(f"{pn}=`{ast.unparse(kw.value)}`")
+                continue
+            alts = shared.param_alternatives(fs.node, pn, c)
+            if alts is None:
+                raise AnalysisError(f"idiom-unknown: {fs.site}: binding of `{pn}` where the Slice is built")
+            for v, cds in alts:
+                if v is None:
+                    continue
+                # a normalisation `index + W` of a negative index is the same index only when it is known to be >= -W
+                guarded = False
+                if pn == "index" and isinstance(v, ast.BinOp) and isinstance(v.op, ast.Add) and ast.unparse(v.left) == pn:
+                    w_ = ast.unparse(v.right)
+                    for t, pol in cds:
+                        if isinstance(t, ast.Compare) and len(t.ops) == 1:
+                            l_, r_, op_ = ast.unparse(t.left), ast.unparse(t.comparators[0]), type(t.ops[0]).__name__
+                            if {l_, r_} == {pn, f"-{w_}"}:
+                                op_ = op_ if l_ == pn else {"Lt": "Gt", "Gt": "Lt", "LtE": "GtE", "GtE": "LtE"}.get(op_, op_)
+                                guarded = guarded or (op_ == "GtE" and pol) or (op_ == "Lt" and not pol)
+                if not guarded:
+                    rewrites.append(f"{pn} := `{ast.unparse(v)}`" + (f" when {' and '.join(('' if p_ else 'not ') + ast.unparse(t) for t, p_ in cds)}" if cds else ""))
+    R.check(bool(ctors) and not rewrites, rule, key_of(fs, "index-as-given"), fs.site,
+            "the Slice stores the parent and the index it was asked for" if not rewrites else f"the index (or parent) is rewritten before it is stored: {rewrites}",
+            why="an index moved into range before the range check is accepted: `Signal(width=4)[-5]` becomes bit 3 instead of an error")
     ci = repo.cls(F_SLICE, "Slice")
     pi = ci.methods.get("__post_init__")
+    # whatever is refused when the slice is built is refused for every width: it must select nothing for every width
+    from . import slicedomain
+    R.run(slicedomain.early_rejections, repo, R, rule, [fs] + ([pi] if pi is not None else []))
     ok = pi is not None and shared.fails_unless(pi.node, "is_sliceable(self.parent)") is not None
     R.check(ok, rule, key_of(pi) if pi else f"{F_SLICE}::Slice", ci.site, f"Slice() rejects non-sliceable parents: {ok}", why="a slice of a bundle instance or no-connect is accepted")
